@@ -322,6 +322,9 @@ func (m *Method) CreateAlias(newName value.Symbol) *Method {
 	alias := m.Copy()
 	alias.Name = newName
 	alias.Base = m
+	// the method may have been compiled and defined by an earlier input of the REPL,
+	// the alias has not been defined at runtime yet
+	alias.SetCompiled(false)
 	return alias
 }
 
